@@ -35,11 +35,31 @@ fn idx(w: Word) -> Option<usize> {
 }
 
 struct Env {
+    /// (predicate data, contract address, predicate address) of every solution of the set, in order; the checked one is index 1
+    all: Vec<(Vec<W>, [u8; 32], [u8; 32])>,
     data: Vec<W>,
     pred_addr: [u8; 32],
     contract_addr: [u8; 32],
     pre: PreState,
     post: PreState,
+}
+
+/// SHA-256 over the length-prefixed predicate data slots, the contract address and the predicate address, all as big-endian words.
+fn pre_image(data: &[W], contract: &[u8; 32], pred: &[u8; 32]) -> Vec<u8> {
+    let mut bytes = Vec::new();
+    for slot in data {
+        bytes.extend((slot.len() as Word).to_be_bytes());
+        for w in slot {
+            bytes.extend(w.to_be_bytes());
+        }
+    }
+    bytes.extend(contract);
+    bytes.extend(pred);
+    bytes
+}
+fn pre_image_hash(data: &[W], contract: &[u8; 32], pred: &[u8; 32]) -> [u8; 32] {
+    use sha2::{Digest, Sha256};
+    Sha256::digest(pre_image(data, contract, pred)).into()
 }
 
 fn be_words(b: &[u8; 32]) -> W {
@@ -392,6 +412,19 @@ fn model(op: &asm::Op, s: &[Word], m: &[Word], env: &Env) -> Option<(W, W, Flow)
                 st.push(d.len() as Word);
                 keep_m(st)
             }
+            A::PredicateExists => {
+                if n < 4 {
+                    return None;
+                }
+                let mut h = [0u8; 32];
+                for (i, w) in s[n - 4..].iter().enumerate() {
+                    h[8 * i..8 * i + 8].copy_from_slice(&w.to_be_bytes());
+                }
+                let found = env.all.iter().any(|(d, c, p)| pre_image_hash(d, c, p) == h);
+                let mut st = s[..n - 4].to_vec();
+                st.push(b2w(found));
+                keep_m(st)
+            }
             A::PredicateData => {
                 if n < 3 {
                     return None;
@@ -484,7 +517,10 @@ fn env() -> Env {
             m.insert(vec![1, Word::MIN], vec![tag + ctag + 5, 0, -1]);
         }
     }
-    Env { data: vec![vec![10, 11, 12], vec![], vec![-5]], pred_addr, contract_addr, pre, post }
+    let data = vec![vec![10, 11, 12], vec![], vec![-5]];
+    // the other solution comes first and has a strictly longer pre-image
+    let all = vec![(vec![vec![99; 10], vec![7]], [9u8; 32], [8u8; 32]), (data.clone(), contract_addr, pred_addr)];
+    Env { all, data, pred_addr, contract_addr, pre, post }
 }
 
 fn access(env: &Env) -> Access {
@@ -494,8 +530,8 @@ fn access(env: &Env) -> Access {
         state_mutations: vec![],
     };
     let other = Solution {
-        predicate_to_solve: PredicateAddress { contract: ContentAddress([9; 32]), predicate: ContentAddress([8; 32]) },
-        predicate_data: vec![vec![99]],
+        predicate_to_solve: PredicateAddress { contract: ContentAddress(env.all[0].1), predicate: ContentAddress(env.all[0].2) },
+        predicate_data: env.all[0].0.clone(),
         state_mutations: vec![],
     };
     Access::new(Arc::new(vec![other, sol]), 1)
@@ -558,9 +594,420 @@ fn tail(v: &[Word]) -> String {
     }
 }
 
+/// Independent reference interpreter for whole programs over the op subset of `model` plus Repeat / RepeatEnd / RepeatCounter and
+/// Compute / ComputeEnd (children run one after another, C10 statement).  Gas: every op costs 1; the op that would exceed the limit
+/// is not executed.  Returns None when the program fails, else (stack, memory, pc, gas, halted, remaining repeat counters).
+#[derive(Clone, Debug, PartialEq)]
+struct RSlot {
+    counter: Word,
+    limit: Option<Word>, // Some = counting up to the limit, None = counting down
+    start: usize,
+}
+#[derive(Clone, Debug)]
+struct RefVm {
+    pc: usize,
+    stack: W,
+    mem: W,
+    parent: Option<W>,
+    repeat: Vec<RSlot>,
+    halt: bool,
+}
+enum Stop {
+    End,
+    ComputeEnd,
+}
+fn ref_exec(vm: &mut RefVm, ops: &[asm::Op], env: &Env, limit: u64, gas: &mut u128, cost: &dyn Fn(&asm::Op) -> u64, oog: &mut Option<(usize, W)>) -> Option<Stop> {
+    use asm::{Access as A, Compute as C, Op, Stack as S};
+    while vm.pc < ops.len() {
+        let op = ops[vm.pc];
+        let c = cost(&op) as u128;
+        if *gas + c > limit as u128 {
+            // out of gas before this op has any effect; remember the state when it happens in the top-level VM
+            if vm.parent.is_none() && oog.is_none() {
+                *oog = Some((vm.pc, vm.stack.clone()));
+            }
+            return None;
+        }
+        *gas += c;
+        match op {
+            Op::Stack(S::Repeat) => {
+                let n = vm.stack.len();
+                if n < 2 {
+                    return None;
+                }
+                let up = w2b(vm.stack[n - 1])?;
+                let cnt = vm.stack[n - 2];
+                vm.stack.truncate(n - 2);
+                if vm.repeat.len() >= 4096 {
+                    return None;
+                }
+                vm.repeat.push(RSlot { counter: if up { 0 } else { cnt }, limit: if up { Some(cnt) } else { None }, start: vm.pc + 1 });
+                vm.pc += 1;
+            }
+            Op::Stack(S::RepeatEnd) => {
+                let sl = vm.repeat.last_mut()?;
+                let done = match sl.limit {
+                    Some(l) => sl.counter >= l.saturating_sub(1),
+                    None => sl.counter <= 1,
+                };
+                if done {
+                    vm.repeat.pop();
+                    vm.pc += 1;
+                } else {
+                    sl.counter += if sl.limit.is_some() { 1 } else { -1 };
+                    vm.pc = sl.start;
+                }
+            }
+            Op::Access(A::RepeatCounter) => {
+                let c = vm.repeat.last()?.counter;
+                if vm.stack.len() >= STACK_LIMIT {
+                    return None;
+                }
+                vm.stack.push(c);
+                vm.pc += 1;
+            }
+            Op::ParentMemory(asm::ParentMemory::Load) => {
+                let a = idx(vm.stack.pop()?)?;
+                let w = *vm.parent.as_ref()?.get(a)?;
+                vm.stack.push(w);
+                vm.pc += 1;
+            }
+            Op::TotalControlFlow(asm::TotalControlFlow::JumpIf) => {
+                let n = vm.stack.len();
+                if n < 2 {
+                    return None;
+                }
+                let (d, c) = (vm.stack[n - 2], vm.stack[n - 1]);
+                vm.stack.truncate(n - 2);
+                if w2b(c)? {
+                    let target = vm.pc as i128 + d as i128;
+                    if d == 0 || target < 0 || target > usize::MAX as i128 {
+                        return None;
+                    }
+                    vm.pc = target as usize;
+                } else {
+                    vm.pc += 1;
+                }
+            }
+            Op::Compute(C::ComputeEnd) => {
+                vm.pc += 1;
+                return Some(Stop::ComputeEnd);
+            }
+            Op::Compute(C::Compute) => {
+                let n = vm.stack.pop()?;
+                if n < 1 || vm.parent.is_some() {
+                    return None;
+                }
+                let mut pc = vm.pc;
+                let mut joined = vm.mem.clone();
+                let mut halt = vm.halt;
+                for i in 0..n {
+                    let mut st = vm.stack.clone();
+                    if st.len() >= STACK_LIMIT {
+                        return None;
+                    }
+                    st.push(i);
+                    let mut child = RefVm { pc: vm.pc + 1, stack: st, mem: vec![], parent: Some(vm.mem.clone()), repeat: vm.repeat.clone(), halt: false };
+                    ref_exec(&mut child, ops, env, limit, gas, cost, oog)?;
+                    joined.extend(child.mem);
+                    pc = pc.max(child.pc);
+                    halt |= child.halt;
+                }
+                if joined.len() > MEM_LIMIT {
+                    return None;
+                }
+                vm.mem = joined;
+                vm.pc = pc;
+                vm.halt = halt;
+                if halt {
+                    return Some(Stop::End);
+                }
+            }
+            _ => {
+                // single-op semantics, evaluated at this pc
+                let (st, mm, flow) = model_at(&op, &vm.stack, &vm.mem, env, vm.pc)?;
+                vm.stack = st;
+                vm.mem = mm;
+                match flow {
+                    Flow::Next => vm.pc += 1,
+                    Flow::Jump(t) => vm.pc = t,
+                    Flow::Halt => return Some(Stop::End),
+                }
+            }
+        }
+    }
+    Some(Stop::End)
+}
+
+fn model_at(op: &asm::Op, s: &[Word], m: &[Word], env: &Env, _pc: usize) -> Option<(W, W, Flow)> {
+    // JumpIf is handled by the interpreter itself (its target depends on the pc); everything else is position independent
+    model(op, s, m, env)
+}
+
+fn check_program(ctx: &Ctx, id: &str, ops: &[asm::Op], limit: u64, env: &Env) {
+    check_program_cost(ctx, id, ops, limit, env, &|_: &asm::Op| 1u64)
+}
+
+fn check_program_cost(ctx: &Ctx, id: &str, ops: &[asm::Op], limit: u64, env: &Env, cost: &(dyn Fn(&asm::Op) -> u64 + Send + Sync)) {
+    if !ctx.want(id) {
+        return;
+    }
+    let mut rv = RefVm { pc: 0, stack: vec![], mem: vec![], parent: None, repeat: vec![], halt: false };
+    let mut gas = 0u128;
+    let mut oog: Option<(usize, W)> = None;
+    let want = ref_exec(&mut rv, ops, env, limit, &mut gas, cost, &mut oog).map(|_| (rv.stack.clone(), rv.mem.clone(), rv.pc, gas as u64));
+    let st = (env.pre.clone(), env.post.clone());
+    let got = std::panic::catch_unwind(std::panic::AssertUnwindSafe(|| {
+        let mut vm = Vm::default();
+        struct Cost<'a>(&'a (dyn Fn(&asm::Op) -> u64 + Send + Sync));
+        impl essential_vm::OpGasCost for Cost<'_> {
+            fn op_gas_cost(&self, op: &asm::Op) -> u64 {
+                (self.0)(op)
+            }
+        }
+        let r = vm.exec_ops(ops, access(env), &st, &Cost(cost), GasLimit { per_yield: 4096, total: limit });
+        let s: W = vm.stack.clone().into();
+        let m: W = vm.memory.clone().into();
+        (r.ok().map(|g| (s.clone(), m, vm.pc, g)), s, vm.pc)
+    }));
+    match got {
+        Err(_) => ctx.fail(id, "the VM never panics", format!("PANIC: program {:?}", ops)),
+        Ok((g, s, pc)) if g == want => {
+            // out of gas in the top-level VM: the op that would exceed the limit has had no effect
+            match (&want, &oog) {
+                (None, Some((opc, ostack))) if (&s, pc) != (ostack, *opc) => ctx.fail(id, "if the next operation would exceed the limit, execution stops with out-of-gas before that operation has any effect",
+                    format!("ops {:?} gas limit {limit}: out of gas is due at pc {opc} with stack {:?}, but the VM stopped at pc {pc} with stack {:?}", ops, tail(ostack), tail(&s))),
+                _ => ctx.pass(),
+            }
+        }
+        Ok((g, _, _)) if false => { let _ = g; }
+        Ok((g, _, _)) => ctx.fail(id, "executing a program (jumps, halts, nested repeats, compute sections, gas) == the reference interpreter written from asm.yml",
+            format!("ops {:?} gas limit {limit}: VM {:?} but reference {:?} (stack, memory, pc, gas)", ops, g.map(|x| (tail(&x.0), tail(&x.1), x.2, x.3)), want.map(|x| (tail(&x.0), tail(&x.1), x.2, x.3)))),
+    }
+}
+
+fn words_of(bytes: &[u8]) -> W {
+    // big-endian words, the last one padded with zeros
+    bytes.chunks(8).map(|c| { let mut b = [0u8; 8]; b[..c.len()].copy_from_slice(c); Word::from_be_bytes(b) }).collect()
+}
+
+fn crypto(ctx: &Ctx, env: &Env) {
+    use asm::Crypto;
+    use ed25519_dalek::{Signer, SigningKey, Verifier, VerifyingKey};
+    let run = |op: asm::Op, s: &[Word]| -> Result<Option<W>, ()> {
+        std::panic::catch_unwind(std::panic::AssertUnwindSafe(|| {
+            let mut vm = Vm::default();
+            vm.stack = Stack::try_from(s.to_vec()).unwrap();
+            let st = (env.pre.clone(), env.post.clone());
+            let r = vm.exec_ops(&[op], access(env), &st, &|_: &asm::Op| 1u64, GasLimit::UNLIMITED);
+            let out: W = vm.stack.clone().into();
+            r.ok().map(|_| out)
+        }))
+        .map_err(|_| ())
+    };
+    // Ed25519
+    let sk = SigningKey::from_bytes(&[7u8; 32]);
+    let vk = sk.verifying_key().to_bytes();
+    let mut low = [0u8; 32];
+    low[0] = 1; // a low-order point as key / R
+    let mut sig_low = [0u8; 64];
+    sig_low[0] = 1;
+    for len in [0usize, 1, 7, 8, 9, 15, 16, 17, 31] {
+        let msg: Vec<u8> = (0..len).map(|i| (i * 13 + 5) as u8).collect();
+        let good = sk.sign(&msg).to_bytes();
+        let mut bad_sig = good;
+        bad_sig[5] ^= 1;
+        let mut bad_s = good;
+        bad_s[40] ^= 0x80;
+        let cases: Vec<(&str, [u8; 32], [u8; 64], Vec<u8>)> = vec![
+            ("good", vk, good, msg.clone()),
+            ("bad-sig", vk, bad_sig, msg.clone()),
+            ("bad-s", vk, bad_s, msg.clone()),
+            ("other-msg", vk, good, msg.iter().map(|b| b ^ 1).chain([1u8]).take(len.max(1)).collect()),
+            ("low-order", low, sig_low, msg.clone()),
+            ("zero-key", [0u8; 32], good, msg.clone()),
+            ("bad-key", [0xffu8; 32], good, msg.clone()),
+        ];
+        for (name, key, sig, m) in cases {
+            let id = format!("vmops/Ed25519/{name}/{len}");
+            if !ctx.want(&id) {
+                continue;
+            }
+            let mut s: W = vec![3];
+            s.extend(words_of(&m));
+            s.push(m.len() as Word);
+            s.extend(words_of(&sig));
+            s.extend(words_of(&key));
+            // the sign crate on the same bytes
+            let want: Option<W> = match VerifyingKey::from_bytes(&key) {
+                Err(_) => None,
+                Ok(k) => Some(vec![3, k.verify(&m, &ed25519_dalek::Signature::from_bytes(&sig)).is_ok() as Word]),
+            };
+            match run(Crypto::VerifyEd25519.into(), &s) {
+                Err(_) => ctx.fail(&id, "the VM never panics", format!("PANIC: VerifyEd25519 case {name} len {len}")),
+                Ok(got) if got == want => ctx.pass(),
+                Ok(got) => ctx.fail(&id, "VerifyEd25519 gives the same answer as verifying the same bytes with the sign crate (byte lengths that are not multiples of 8 included)",
+                    format!("case {name}, message of {len} bytes: VM {:?} but ed25519_dalek {:?}", got, want)),
+            }
+        }
+    }
+    // Secp256k1 recovery
+    use secp256k1::{ecdsa::{RecoverableSignature, RecoveryId}, Message, Secp256k1, SecretKey};
+    let secp = Secp256k1::new();
+    let key = SecretKey::from_byte_array(&[11u8; 32]).expect("valid key");
+    for (hi, hash) in [[1u8; 32], [0xabu8; 32], { let mut h = [0u8; 32]; h[31] = 9; h }].into_iter().enumerate() {
+        let sig = secp.sign_ecdsa_recoverable(&Message::from_digest(hash), &key);
+        let (rid, compact) = sig.serialize_compact();
+        let mut corrupt = compact;
+        corrupt[7] ^= 0x10;
+        let zero = [0u8; 64];
+        let mut high = [0xffu8; 64];
+        high[63] = 0xfe;
+        let rid_i: i32 = rid.into();
+        for (name, sigb, rbit) in [("good", compact, rid_i as Word), ("other-recid", compact, (1 - rid_i % 2) as Word), ("corrupt", corrupt, rid_i as Word), ("zero", zero, 0), ("overflow", high, 1), ("bad-recid", compact, 4), ("neg-recid", compact, -1), ("huge-recid", compact, Word::MAX)] {
+            let id = format!("vmops/Secp256k1/{hi}/{name}");
+            if !ctx.want(&id) {
+                continue;
+            }
+            let mut s: W = vec![4];
+            s.extend(words_of(&hash));
+            s.extend(words_of(&sigb));
+            s.push(rbit);
+            // the sign crate on the same bytes: malformed operands are errors, a well-formed but unrecoverable signature is five zero words
+            let want: Option<W> = (|| {
+                let r = i32::try_from(rbit).ok()?;
+                let rid = RecoveryId::try_from(r).ok()?;
+                let rs = RecoverableSignature::from_compact(&sigb, rid).ok()?;
+                let mut out: W = vec![4];
+                match secp.recover_ecdsa(&Message::from_digest(hash), &rs) {
+                    Ok(pk) => {
+                        let ser = pk.serialize();
+                        out.extend(words_of(&ser[..32]));
+                        out.push(ser[32] as Word);
+                    }
+                    Err(_) => out.extend([0; 5]),
+                }
+                Some(out)
+            })();
+            match run(Crypto::RecoverSecp256k1.into(), &s) {
+                Err(_) => ctx.fail(&id, "the VM never panics", format!("PANIC: RecoverSecp256k1 case {name}")),
+                Ok(got) if got == want => ctx.pass(),
+                Ok(got) => ctx.fail(&id, "RecoverSecp256k1 gives the same answer as recovering from the same bytes with the sign crate (five zero words for a well-formed but unrecoverable signature)",
+                    format!("case {name}: VM {:?} but secp256k1 {:?}", got, want)),
+            }
+        }
+    }
+}
+
+fn xorshift(s: &mut u64) -> u64 {
+    *s ^= *s << 13;
+    *s ^= *s >> 7;
+    *s ^= *s << 17;
+    *s
+}
+
+fn programs(ctx: &Ctx, env: &Env) {
+    use asm::{Access as A, Alu, Compute as C, Memory as M, Pred, Stack as S, TotalControlFlow as T};
+    let p = |w: Word| -> asm::Op { S::Push(w).into() };
+    // ---- hand-written shapes
+    let named: Vec<(&str, Vec<asm::Op>)> = vec![
+        ("nested-up-down", vec![p(3), p(1), S::Repeat.into(), p(2), p(0), S::Repeat.into(), A::RepeatCounter.into(), S::RepeatEnd.into(), A::RepeatCounter.into(), S::RepeatEnd.into(), p(-9)]),
+        ("loop-sum", vec![p(0), p(5), p(1), S::Repeat.into(), A::RepeatCounter.into(), Alu::Add.into(), S::RepeatEnd.into()]),
+        ("skip-inside-body", vec![p(4), p(1), S::Repeat.into(), A::RepeatCounter.into(), p(2), Pred::Eq.into(), p(2), S::Swap.into(), T::JumpIf.into(), p(50), A::RepeatCounter.into(), S::RepeatEnd.into()]),
+        // a backward jump that re-executes the Repeat op once (guard flag on the stack): a second slot is pushed, the first one survives
+        ("reenter-repeat", vec![p(1), p(3), p(1), S::Repeat.into(), p(0), S::Swap.into(), p(-7), S::Swap.into(), T::JumpIf.into(), S::RepeatEnd.into(), A::RepeatCounter.into()]),
+        ("reenter-repeat-down", vec![p(1), p(2), p(0), S::Repeat.into(), p(0), S::Swap.into(), p(-7), S::Swap.into(), T::JumpIf.into(), A::RepeatCounter.into(), S::Pop.into(), S::RepeatEnd.into(), A::RepeatCounter.into(), S::RepeatEnd.into(), p(5)]),
+        ("far-exit", vec![p(7), p(Word::MAX), p(1), T::JumpIf.into(), p(8)]),
+        ("far-exit-in-loop", vec![p(2), p(1), S::Repeat.into(), p(Word::MAX - 4), p(1), T::JumpIf.into(), S::RepeatEnd.into()]),
+        ("back-to-start", vec![p(0), p(1), Alu::Add.into(), S::Dup.into(), p(3), Pred::Lt.into(), p(-6), S::Swap.into(), T::JumpIf.into(), p(9)]),
+        ("halt-in-loop", vec![p(5), p(1), S::Repeat.into(), A::RepeatCounter.into(), p(2), Pred::Eq.into(), T::HaltIf.into(), S::RepeatEnd.into(), p(1)]),
+        ("compute-in-loop-up", vec![p(2), p(1), S::Repeat.into(), p(2), C::Compute.into(), p(1), M::Alloc.into(), S::Pop.into(), A::RepeatCounter.into(), p(0), M::Store.into(), S::Pop.into(), C::ComputeEnd.into(), S::RepeatEnd.into()]),
+        ("compute-in-loop-down", vec![p(3), p(0), S::Repeat.into(), p(1), C::Compute.into(), S::Pop.into(), A::RepeatCounter.into(), p(1), M::Alloc.into(), M::Store.into(), C::ComputeEnd.into(), S::RepeatEnd.into(), p(4)]),
+        ("loop-inside-compute", vec![p(2), C::Compute.into(), p(2), p(1), S::Repeat.into(), p(1), M::Alloc.into(), S::Pop.into(), S::RepeatEnd.into(), S::Pop.into(), C::ComputeEnd.into(), p(3)]),
+        ("compute-reads-parent", vec![p(2), M::Alloc.into(), S::Pop.into(), p(11), p(0), M::Store.into(), p(12), p(1), M::Store.into(), p(2), C::Compute.into(), p(1), M::Alloc.into(), S::Pop.into(), asm::ParentMemory::Load.into(), p(0), M::Store.into(), C::ComputeEnd.into()]),
+        ("repeat-end-without-repeat", vec![p(1), S::RepeatEnd.into()]),
+        ("counter-without-repeat", vec![A::RepeatCounter.into()]),
+    ];
+    for (name, ops) in &named {
+        for limit in [u64::MAX, 1000, 20, 7] {
+            check_program(ctx, &format!("vmops/program/{name}/{limit}"), ops, limit, env);
+        }
+    }
+    // ---- per-op cost functions (0, small, huge) x limits around every prefix sum, on programs with compute sections and loops
+    let costed: Vec<(&str, Vec<asm::Op>)> = vec![
+        ("compute-tail", vec![p(3), C::Compute.into(), S::Pop.into(), C::ComputeEnd.into()]),
+        ("compute-mid", vec![p(2), C::Compute.into(), p(7), S::Pop.into(), C::ComputeEnd.into(), p(5)]),
+        ("loop", vec![p(3), p(1), S::Repeat.into(), A::RepeatCounter.into(), S::Pop.into(), S::RepeatEnd.into()]),
+    ];
+    // cost per op class: (push, compute, everything else)
+    let tables: Vec<(u64, u64, u64)> = vec![(1, 1, 1), (0, 0, 1), (0, 0, 1 << 63), (0, 5, 1), (2, 7, 3), (0, 0, 0), (1, u64::MAX - 3, 1), (0, 0, u64::MAX / 3 + 1), (1 << 62, 0, 1 << 62)];
+    for (name, ops) in &costed {
+        for (ti, (cp, cc, co)) in tables.iter().enumerate() {
+            let (cp, cc, co) = (*cp, *cc, *co);
+            let cost = move |op: &asm::Op| -> u64 {
+                match op {
+                    asm::Op::Stack(S::Push(_)) => cp,
+                    asm::Op::Compute(C::Compute) => cc,
+                    _ => co,
+                }
+            };
+            // limits: every prefix sum of the unlimited reference run, +-1, and the extremes
+            let mut sums: Vec<u128> = vec![0];
+            {
+                let mut rv = RefVm { pc: 0, stack: vec![], mem: vec![], parent: None, repeat: vec![], halt: false };
+                let mut g = 0u128;
+                let log = std::cell::RefCell::new(Vec::new());
+                let logging = |op: &asm::Op| -> u64 {
+                    let c = cost(op);
+                    log.borrow_mut().push(c);
+                    c
+                };
+                let _ = ref_exec(&mut rv, ops, env, u64::MAX, &mut g, &logging, &mut None);
+                let mut acc = 0u128;
+                for c in log.borrow().iter() {
+                    acc += *c as u128;
+                    sums.push(acc);
+                }
+            }
+            let mut limits: Vec<u64> = vec![0, 1, u64::MAX, u64::MAX - 1];
+            for s in sums {
+                for d in [-1i128, 0, 1] {
+                    let l = s as i128 + d;
+                    if l >= 0 && l <= u64::MAX as i128 {
+                        limits.push(l as u64);
+                    }
+                }
+            }
+            limits.sort();
+            limits.dedup();
+            for limit in limits {
+                check_program_cost(ctx, &format!("vmops/cost/{name}/{ti}/{limit}"), ops, limit, env, &cost);
+            }
+        }
+    }
+    // ---- deterministic pseudo-random programs over a control-flow-heavy palette
+    let palette: Vec<asm::Op> = vec![
+        p(0), p(1), p(2), p(3), p(-1), p(-2), p(-3), p(-5), p(1), p(2), S::Pop.into(), S::Dup.into(), S::Swap.into(), Alu::Add.into(), Alu::Sub.into(), Pred::Eq.into(), Pred::Lt.into(), Pred::Not.into(),
+        T::JumpIf.into(), T::JumpIf.into(), T::HaltIf.into(), T::Halt.into(), S::Repeat.into(), S::Repeat.into(), S::RepeatEnd.into(), S::RepeatEnd.into(), A::RepeatCounter.into(), A::RepeatCounter.into(),
+        M::Alloc.into(), M::Store.into(), M::Load.into(), C::Compute.into(), C::ComputeEnd.into(), S::DupFrom.into(), S::Select.into(),
+    ];
+    let n = if ctx.thorough { 400_000u64 } else { 60_000 };
+    for seed in 1..=n {
+        let id = format!("vmops/random/{seed}");
+        if !ctx.want(&id) {
+            continue;
+        }
+        let mut s = seed.wrapping_mul(0x9E3779B97F4A7C15) | 1;
+        let len = 3 + (xorshift(&mut s) % 12) as usize;
+        let ops: Vec<asm::Op> = (0..len).map(|_| palette[(xorshift(&mut s) % palette.len() as u64) as usize]).collect();
+        check_program(ctx, &id, &ops, 300, env);
+    }
+}
+
 pub fn run(ctx: &Ctx) {
     use asm::{Access as A, Alu, Crypto, Memory as M, Pred, Stack as S, StateRead as R, TotalControlFlow as T};
     let env = env();
+    programs(ctx, &env);
     let pool: W = vec![
         0, 1, 2, 3, -1, -2, -3, -4, 63, 64, 65, 4095, 4096, Word::MIN, Word::MAX, Word::MIN + 1, -64,
         // half-word boundaries, the integer square root of 2^63, a shift amount whose low 32 bits look valid
@@ -880,6 +1327,32 @@ pub fn run(ctx: &Ctx) {
             }
         }
     }
+    // ---- PredicateExists: the hash of every solution of the set (any position), near misses, too few operands
+    {
+        use sha2::{Digest, Sha256};
+        let mut hashes: Vec<[u8; 32]> = env.all.iter().map(|(d, c, p)| pre_image_hash(d, c, p)).collect();
+        // the checked solution's pre-image followed by the tail of the longer, earlier one; its data with one word changed; addresses swapped
+        let (a, b) = (pre_image(&env.all[0].0, &env.all[0].1, &env.all[0].2), pre_image(&env.all[1].0, &env.all[1].1, &env.all[1].2));
+        let mut stale = b.clone();
+        stale.extend(&a[b.len().min(a.len())..]);
+        hashes.push(Sha256::digest(&stale).into());
+        let mut d2 = env.all[1].0.clone();
+        d2[0][0] += 1;
+        hashes.push(pre_image_hash(&d2, &env.all[1].1, &env.all[1].2));
+        hashes.push(pre_image_hash(&env.all[1].0, &env.all[1].2, &env.all[1].1));
+        hashes.push(pre_image_hash(&env.all[1].0, &env.all[0].1, &env.all[0].2));
+        hashes.push([0u8; 32]);
+        for (hi, h) in hashes.iter().enumerate() {
+            for base in [vec![], vec![5, 6]] {
+                let mut s: W = base.clone();
+                s.extend(be_words(h));
+                check(ctx, &format!("vmops/PredicateExists/{hi}/{}", base.len()), A::PredicateExists.into(), &s, &[], &env);
+                check(ctx, &format!("vmops/PredicateExists/short/{hi}/{}", base.len()), A::PredicateExists.into(), &s[base.len() + 1..], &[], &env);
+            }
+        }
+    }
+    // ---- VerifyEd25519 / RecoverSecp256k1 == the sign crates on the same bytes (unaligned lengths, corrupted and degenerate signatures)
+    crypto(ctx, &env);
     // ---- SHA-256: byte-aligned lengths
     for len in [0i64, 1, 7, 8, 9, 16, 17, 24, -1, 25, 100] {
         let s: W = vec![5, 0x0102030405060708, -2, 0x1122334455667788, len];
